@@ -41,6 +41,7 @@ def _execute(ctx, case, prop, nontrivial_tags):
         for i, op in enumerate(case["ops"]):
             tag = step(w, op, prop)
             tags[tag] = tags.get(tag, 0) + 1
+            w.count("events")
     except TViolation as v:
         return {"violation": dict(v.to_json(), step=i), "nontrivial": any(t in tags for t in nontrivial_tags),
                 "stats": dict(w.stats), "extra": {"counters": {"op:" + k: n for k, n in tags.items()}}, "trace_digest": None}
